@@ -31,6 +31,7 @@ type input struct {
 	Specs  []pkig.CertSpec `json:"specs"`
 	Ops    []opSpec        `json:"ops"`
 	Starts []int           `json:"starts,omitempty"` // empty = every certificate of the universe
+	Others [][]opSpec      `json:"others,omitempty"` // other insertion orders of the same certificates and roots
 }
 
 // ---------------------------------------------------------------- graph
@@ -74,37 +75,92 @@ func sortedKeys(cs []chain) []string {
 }
 
 // ---------------------------------------------------------------- reference enumeration (the property, executable)
+//
+// The reference graph is computed from the inserted certificates, the root
+// set and the signature matrix alone -- NOT from the implementation's graph:
+// one edge per distinct inserted fingerprint, its child is the (subject, key)
+// of the certificate, its issuer is the first-created node (creation order =
+// order of first insertion) that carries the issuer name and whose key
+// verifies the certificate (C10_issuer_is_first_verifying_node), None if there
+// is no such node.
 
 type refEdge struct {
 	cert    *x509.Certificate
 	fp      int
 	hasIss  bool
-	issFP   string // node fingerprints
+	issFP   string // node identities "subject.key"
 	childFP string
 	root    bool
 }
 
+type refNode struct{ s, k int }
+
+func (n refNode) id() string { return fmt.Sprintf("%d.%d", n.s, n.k) }
+
 type refGraph struct {
 	edges []refEdge
-	byFP  map[string]*refEdge
-	dump  *verifier.VerifGraphDump
+	byFP  map[int]*refEdge
+	nodes []refNode // creation order
 	g     *verifier.Graph
 }
 
-func newRef(p *pkig.PKI, g *verifier.Graph) *refGraph {
-	d := verifier.VerifDump(g)
-	r := &refGraph{byFP: map[string]*refEdge{}, dump: d, g: g}
-	certs := map[string]*x509.Certificate{}
-	for _, e := range g.Edges() {
-		certs[string(e.Certificate.FingerprintSHA256)] = e.Certificate
+func (r *refGraph) issuerOf(p *pkig.PKI, ci int) (string, bool) {
+	for _, n := range r.nodes {
+		if n.s == p.Iss[ci] && p.Verifies(n.k, ci) {
+			return n.id(), true
+		}
 	}
-	for _, e := range d.Edges {
-		r.edges = append(r.edges, refEdge{cert: certs[e.CertFP], fp: p.FPOf([]byte(e.CertFP)), hasIss: e.HasIssuer, issFP: e.IssuerFP, childFP: e.ChildFP, root: e.Root})
+	return "", false
+}
+
+func newRef(p *pkig.PKI, ops []opSpec, g *verifier.Graph) *refGraph {
+	r := &refGraph{byFP: map[int]*refEdge{}, g: g}
+	seenFP := map[int]bool{}
+	seenNode := map[refNode]bool{}
+	rooted := map[int]bool{}
+	var order []int
+	for _, o := range ops {
+		fp := p.FP[o.C]
+		if o.Root {
+			rooted[fp] = true
+		}
+		if seenFP[fp] {
+			continue
+		}
+		seenFP[fp] = true
+		order = append(order, fp) // fp = index of the first certificate with that fingerprint
+		n := refNode{p.Subj[fp], p.Key[fp]}
+		if !seenNode[n] {
+			seenNode[n] = true
+			r.nodes = append(r.nodes, n)
+		}
+	}
+	for _, ci := range order {
+		e := refEdge{cert: p.Certs[ci], fp: ci, childFP: refNode{p.Subj[ci], p.Key[ci]}.id(), root: rooted[ci]}
+		e.issFP, e.hasIss = r.issuerOf(p, ci)
+		r.edges = append(r.edges, e)
 	}
 	for i := range r.edges {
-		r.byFP[string(r.edges[i].cert.FingerprintSHA256)] = &r.edges[i]
+		r.byFP[r.edges[i].fp] = &r.edges[i]
 	}
 	return r
+}
+
+// ambiguous: some certificate of the universe is verified by two nodes with its issuer name
+// (then the chosen issuer, hence the chains, may depend on the insertion order)
+func (r *refGraph) ambiguous(p *pkig.PKI) bool {
+	for ci := range p.Certs {
+		n := 0
+		for _, nd := range r.nodes {
+			if nd.s == p.Iss[ci] && p.Verifies(nd.k, ci) {
+				n++
+			}
+		}
+		if n > 1 {
+			return true
+		}
+	}
+	return false
 }
 
 var sigMemo = map[string]bool{}
@@ -119,19 +175,14 @@ func sigOK(pub interface{}, keyID string, c *x509.Certificate) bool {
 	return v
 }
 
-// startEdge: the graph's edge, or (certificate not in the graph) an edge to the
+// startEdge: the graph's edge, or (certificate not in the graph) a non-root edge to the
 // first-created node that has the issuer name and verifies the certificate
-func (r *refGraph) startEdge(p *pkig.PKI, c *x509.Certificate) refEdge {
-	if e, ok := r.byFP[string(c.FingerprintSHA256)]; ok {
+func (r *refGraph) startEdge(p *pkig.PKI, ci int) refEdge {
+	if e, ok := r.byFP[p.FP[ci]]; ok {
 		return *e
 	}
-	s := refEdge{cert: c, fp: p.FPOf(c.FingerprintSHA256), childFP: string(c.SPKISubjectFingerprint)}
-	for _, n := range r.dump.Nodes {
-		if bytes.Equal(n.RawSubject, c.RawIssuer) && sigOK(verifier.VerifNodePublicKey(r.g, n.SKFP), n.SKFP, c) {
-			s.hasIss, s.issFP = true, n.SKFP
-			break
-		}
-	}
+	s := refEdge{cert: p.Certs[ci], fp: p.FP[ci], childFP: refNode{p.Subj[ci], p.Key[ci]}.id()}
+	s.issFP, s.hasIss = r.issuerOf(p, ci)
 	return s
 }
 
@@ -184,7 +235,7 @@ func (r *refGraph) paths(start refEdge) [][]refEdge {
 }
 
 // classify a permitted path the implementation does not return.  The two
-// special classes were findings of the unrepaired walk (fixed in d35dc24); they
+// special classes were findings of the unrepaired walk (fixed in 4161f08); they
 // keep their own keys so that a regression is named precisely.
 func classifyMissing(path []refEdge) string {
 	if len(path) >= 2 {
@@ -305,13 +356,17 @@ func walkSync(g *verifier.Graph, c *x509.Certificate) ([]x509.CertificateChain, 
 
 type stats struct{ chains, walks, maxLen int }
 
-func runUniverse(c *vh.Ctx, in input, withAsync bool) {
+// runUniverse walks from every start certificate over the graph built by in.Ops;
+// it returns, per start certificate, the sorted set of chains, and whether the
+// universe has an ambiguous issuer.
+func runUniverse(c *vh.Ctx, in input, withAsync bool) (map[int]string, bool) {
 	p, err := pkig.Build(in.Specs)
 	if err != nil {
 		panic(err)
 	}
 	g := build(p, in.Ops)
-	ref := newRef(p, g)
+	ref := newRef(p, in.Ops, g)
+	sets := map[int]string{}
 	starts := in.Starts
 	if len(starts) == 0 {
 		for i := range p.Certs {
@@ -320,7 +375,7 @@ func runUniverse(c *vh.Ctx, in input, withAsync bool) {
 	}
 	var wobs []string
 	nontrivial := false
-	desc := func(s int) input { return input{Specs: in.Specs, Ops: in.Ops, Starts: []int{s}} }
+	desc := func(s int) input { return input{Specs: in.Specs, Ops: in.Ops, Starts: []int{s}, Others: in.Others} }
 	for _, s := range starts {
 		cert := p.Parse(s)
 		got, finished := walkSync(g, cert)
@@ -359,7 +414,8 @@ func runUniverse(c *vh.Ctx, in input, withAsync bool) {
 			}
 		}
 		// oracle 2: exactly the permitted paths
-		want := ref.paths(ref.startEdge(p, cert))
+		sets[s] = strings.Join(sortedKeys(gotC), "|")
+		want := ref.paths(ref.startEdge(p, s))
 		wantKeys := map[string]bool{}
 		for _, path := range want {
 			ch := make(chain, len(path))
@@ -402,7 +458,35 @@ func runUniverse(c *vh.Ctx, in input, withAsync bool) {
 	if nontrivial {
 		key = pkig.Describe(in.Specs) + fmt.Sprint(in.Ops)
 	}
-	c.Case("case", vh.Pair(p.CoqCerts(), coqOps(in.Ops), vh.List0(wobs, "wobs")), in, key)
+	one := in
+	one.Others = nil
+	c.Case("case", vh.Pair(p.CoqCerts(), coqOps(in.Ops), vh.List0(wobs, "wobs")), one, key)
+	return sets, ref.ambiguous(p)
+}
+
+// runGroup runs the universe under in.Ops and under every other insertion order
+// in in.Others (same certificates, same roots): unless an issuer is ambiguous,
+// the set of chains from every start certificate must be the same for all orders.
+func runGroup(c *vh.Ctx, in input, withAsync bool) {
+	base, amb := runUniverse(c, in, withAsync)
+	for _, o := range in.Others {
+		alt := in
+		alt.Ops, alt.Others = o, nil
+		sets, amb2 := runUniverse(c, alt, false)
+		c.Eval("")
+		if amb || amb2 {
+			c.Stat("ambiguous_issuer_universes", 1)
+			continue
+		}
+		for s, want := range base {
+			if sets[s] != want {
+				report(c, "order-dependent-walk",
+					fmt.Sprintf("walk from %d: chains {%s} when built in order %v, {%s} when built in order %v", s, want, in.Ops, sets[s], o),
+					"case", input{Specs: in.Specs, Ops: in.Ops, Others: [][]opSpec{o}, Starts: []int{s}})
+				break
+			}
+		}
+	}
 }
 
 func coqOps(ops []opSpec) string {
@@ -475,16 +559,43 @@ func walkFamilies() []pkig.Family {
 		// two chains that differ only in their last element
 		{Name: "two-root-certs", Specs: []pkig.CertSpec{pkig.Root(0, 0), ser(pkig.Root(0, 0), 1), pkig.CA(1, 1, 0, 0), pkig.CA(2, 2, 1, 1), pkig.Leaf(3, 4, 2, 2)}},
 		{Name: "two-root-certs-deep", Specs: append(pkig.DeepChain(7), ser(pkig.Root(100, 100), 1), ser(pkig.Root(100, 100), 2))},
+		// key roll-over of a CA: same subject, two keys, one child per key, listed children first, then CA(K1), CA(K2)
+		{Name: "rollover-children-first", Specs: []pkig.CertSpec{pkig.Leaf(3, 4, 1, 1), pkig.Leaf(5, 5, 1, 2), pkig.CA(1, 1, 0, 0), pkig.CA(1, 2, 0, 0), pkig.Root(0, 0)}},
+		// the same with three keys and a self-issued roll-over certificate, CA keys in the other order
+		{Name: "rollover3-children-first", Specs: []pkig.CertSpec{pkig.Leaf(3, 4, 1, 1), pkig.Leaf(5, 5, 1, 2), pkig.Leaf(6, 8, 1, 6), pkig.CA(1, 6, 0, 0), pkig.CA(1, 2, 1, 1), pkig.CA(1, 1, 0, 0), pkig.Root(0, 0)}},
 		// two roots, diamond
 		{Name: "diamond", Specs: []pkig.CertSpec{pkig.Root(0, 0), pkig.Root(9, 9), pkig.CA(1, 1, 0, 0), pkig.CA(2, 2, 0, 0), pkig.CA(2, 2, 9, 9), pkig.CA(4, 4, 1, 1), pkig.CA(4, 4, 2, 2), pkig.Leaf(3, 5, 4, 4)}},
 	}
 	return fs
 }
 
+func reversed(ops []opSpec) []opSpec {
+	o := make([]opSpec, len(ops))
+	for i := range ops {
+		o[len(ops)-1-i] = ops[i]
+	}
+	return o
+}
+
+// withExtras: a random order of ops with duplicates and re-insertions that change
+// neither the certificate set nor the root set
+func withExtras(c *vh.Ctx, ops []opSpec) []opSpec {
+	o := permute(c, ops)
+	for k := 1 + c.Intn(2); k > 0 && len(ops) > 0; k-- {
+		x := ops[c.Intn(len(ops))]
+		if c.Intn(2) == 0 {
+			x.Root = false // re-insertion of a (root or non-root) certificate with AddCert
+		}
+		at := c.Intn(len(o) + 1)
+		o = append(o[:at], append([]opSpec{x}, o[at:]...)...)
+	}
+	return o
+}
+
 func gen(c *vh.Ctx) {
-	nRand := 60
+	nRand := 40
 	if c.Thorough {
-		nRand = 1200
+		nRand = 800
 	}
 	var fams []pkig.Family
 	fams = append(fams, pkig.Families()...)
@@ -498,17 +609,24 @@ func gen(c *vh.Ctx) {
 					ops[i].Root = ops[i].C == 0 || (mode == 1 && c.Intn(3) == 0)
 				}
 			}
-			if mode > 0 {
-				ops = permute(c, ops)
+			in := input{Specs: f.Specs, Ops: ops}
+			switch mode {
+			case 0: // as listed (mostly issuer first), children first, random with duplicates / re-insertions
+				in.Others = [][]opSpec{reversed(ops), withExtras(c, ops)}
+			case 1:
+				in.Ops = permute(c, ops)
+				in.Others = [][]opSpec{withExtras(c, ops)}
+			default:
+				in.Ops = reversed(ops)
 			}
-			runUniverse(c, input{Specs: f.Specs, Ops: ops}, true)
+			runGroup(c, in, true)
 			c.Stat("universe."+f.Name, 1)
 		}
 	}
 	for i := 0; i < nRand; i++ {
 		specs := pkig.Random(c, 4+c.Intn(6), 2+c.Intn(3), 3+c.Intn(3))
-		ops := permute(c, opsFor(c, specs, 1))
-		runUniverse(c, input{Specs: specs, Ops: ops}, i%4 == 0)
+		ops := opsFor(c, specs, 1)
+		runGroup(c, input{Specs: specs, Ops: permute(c, ops), Others: [][]opSpec{withExtras(c, ops)}}, i%4 == 0)
 	}
 }
 
@@ -574,7 +692,7 @@ func replay(c *vh.Ctx, raw json.RawMessage) {
 		c.Note("replay skipped: the x509 package under test rejects the alternative Ed25519 SPKI encoding")
 		return
 	}
-	runUniverse(c, in, true)
+	runGroup(c, in, true)
 }
 
 func main() {
